@@ -253,8 +253,10 @@ def run(ctx):
         from . import c13_sqlite
     except ImportError:
         c13_sqlite = None
+    st = None
     if c13_sqlite is not None:
         sq = c13_sqlite.run_part(ctx)
+        st = c13_sqlite.run_stmt_part(ctx)
     sy = None
     try:
         from . import c13_sys
@@ -273,6 +275,7 @@ def run(ctx):
         stray_tmp_files_seen=sum(r["stray"] for r in res),
         sqlite_part=sq["summary"] if sq else "not run",
         json_syscall_part=sy["summary"] if sy else "not run",
+        sqlite_statement_part=st["summary"] if st else "not run",
     )
     ctx.assumptions += ["process-kill crash model (written data survives); buffering decided by CPython's real io stack", "time.time is constant inside the history module so that old/new versions are comparable"]
 
@@ -280,6 +283,10 @@ def run(ctx):
 def replay(rec):
     _setup()
     c = rec["case"]
+    if c.get("tier") == "sqlite-statement":
+        from . import c13_sqlite
+
+        return c13_sqlite.replay_stmt(rec)
     if c.get("tier") == "syscall":
         from . import c13_sys
 
